@@ -89,3 +89,63 @@ def check_usize(facts, chk, rule, fn, what, accept):
             chk.violation(rule, key, where=fn, evals=len(texts), detail='%s %r: the parser gives %s, expected %s (%d of %d texts wrong)' % (what, r[0][0], r[0][1], r[0][2], len(r), len(texts)))
         else:
             chk.ok(rule, key, fn, '%s text -> its value, accepted exactly on the documented range (%d texts)' % (what, len(texts)), evals=len(texts))
+
+
+def _by_return(facts, ret):
+    return sorted(b.name for b in facts.bodies.values() if b.kind != 'Closure' and b.name.startswith('cli::') and b.arg_count == 1 and
+                  b.local_ty(1) == '&str' and b.local_ty(0).replace(' ', '') == ret)
+
+
+def check_usize_options(facts, chk, rule, role):
+    """the two fn(&str) -> Result<usize, String> parsers of src/cli.rs, told apart by what they do with "64": the thread-count
+    parser accepts it (every n >= 1 is a valid thread count), the k parser does not (k is odd, 5..=63).  role: 'threads' | 'k'"""
+    key = '%s:%s-parser' % (rule, role)
+
+    def find():
+        fns = _by_return(facts, 'std::result::Result<usize,std::string::String>')
+        if not fns:
+            raise AnchorLost('no fn(&str) -> Result<usize, String> value parser found in cli')
+        sel = [fn for fn in fns if _call(facts, fn, '64')[0] == (role == 'threads')]
+        if not sel:
+            raise AnchorLost('no %s parser among %s' % (role, fns))
+        return sel
+    for fn in chk.guard(rule, key, find) or []:
+        if role == 'threads':
+            check_usize(facts, chk, rule, fn, 'threads:' + fn.split('::')[-1], lambda n: n >= 1)
+        else:
+            check_usize(facts, chk, rule, fn, 'k:' + fn.split('::')[-1], lambda n: 5 <= n <= 63 and n % 2 == 1)
+
+
+def check_min_count_option(facts, chk, rule):
+    """--min-count: fn(&str) -> Result<ValidMinKmer, String>: "auto" -> Auto, n in 1..=65535 -> Val(n) exactly, "0" rejected
+    (texts that are not numbers abort the program in the pinned code; they are not part of the rule)"""
+    key = '%s:min-count-parser' % rule
+
+    def go():
+        fns = [b.name for b in facts.bodies.values() if b.kind != 'Closure' and b.name.startswith('cli::') and b.arg_count == 1 and
+               b.local_ty(1) == '&str' and 'ValidMinKmer' in b.local_ty(0) and b.local_ty(0).startswith('std::result::Result<')]
+        if not fns:
+            raise AnchorLost('no fn(&str) -> Result<ValidMinKmer, String> value parser found in cli')
+        adt = next(p for p in facts.adts if p.endswith('cli::ValidMinKmer'))
+        v_auto, v_val = facts.variant_index(adt, 'Auto'), facts.variant_index(adt, 'Val')
+        bad, n = [], 0
+        for fn in sorted(fns):
+            for txt in ['auto', '0'] + [str(x) for x in list(range(1, 40)) + [100, 255, 256, 257, 1000, 32767, 32768, 65535]]:
+                ok, v = _call(facts, fn, txt)
+                n += 1
+                if txt == '0':
+                    if ok:
+                        bad.append((fn, txt, 'accepted', 'rejected'))
+                elif txt == 'auto':
+                    if not ok or v.variant != v_auto:
+                        bad.append((fn, txt, repr(v), 'Auto'))
+                elif not ok or v.variant != v_val or not isinstance(v.fields[0], BV) or v.fields[0].val != int(txt):
+                    bad.append((fn, txt, repr(v), 'Val(%s)' % txt))
+        return n, bad
+    r = chk.guard(rule, key, go)
+    if r is not None:
+        n, bad = r
+        if bad:
+            chk.violation(rule, key, where=bad[0][0], evals=n, detail='--min-count %r: the parser gives %s, expected %s (%d of %d texts wrong)' % (bad[0][1], bad[0][2], bad[0][3], len(bad), n))
+        else:
+            chk.ok(rule, key, 'cli', '--min-count text -> Auto / Val(n) with exactly the number written, 0 rejected (%d texts)' % n, evals=n)
